@@ -319,3 +319,10 @@ pub broadcast group group_to_string {
     axiom_to_string_usize,
 }
 }
+verus! {
+/// `&String == &String` / `!=` (core::cmp impl for references delegates to String's)
+pub axiom fn axiom_string_ref_eq<'a, 'b>(a: &'a String, b: &'b String)
+    ensures
+        <&'a String as vstd::std_specs::cmp::PartialEqSpec<&'b String>>::obeys_eq_spec(),
+        <&'a String as vstd::std_specs::cmp::PartialEqSpec<&'b String>>::eq_spec(&a, &b) == (a@ == b@);
+}
